@@ -14,6 +14,7 @@ package main
 import (
 	"context"
 	"fmt"
+	"github.com/DATA-DOG/go-sqlmock"
 	"os"
 	"path/filepath"
 	"sort"
@@ -21,6 +22,7 @@ import (
 	"sync"
 
 	"ariga.io/atlas/sql/migrate"
+	"ariga.io/atlas/sql/mysql"
 	"ariga.io/atlas/sql/schema"
 	"ariga.io/atlas/sql/sqlite"
 	"ariga.io/atlas/sql/sqltool"
@@ -296,8 +298,11 @@ func planTextRev(p *migrate.Plan) string {
 // (B) flag consistency for the three planners
 func c17Flags(e *Env, viol func(kind, sig, what, chk string, rep any), mu *sync.Mutex) {
 	cat := c02Catalogue()
-	for _, d := range []string{"mysql", "postgres", "sqlite"} {
-		pl, _, _ := plannerOf(d)
+	for _, dn := range []string{"mysql", "postgres", "sqlite", "tidb"} {
+		pl, d := c17Planner(dn)
+		if pl == nil {
+			continue
+		}
 		for _, ed := range cat {
 			if ed.NoSQLite && d == "sqlite" {
 				continue
@@ -330,10 +335,10 @@ func c17Flags(e *Env, viol func(kind, sig, what, chk string, rep any), mu *sync.
 				}
 			}
 			mu.Lock()
-			e.Res.Count("flag/"+d+"/"+ed.Desc, plan.Reversible, "flags:"+d)
+			e.Res.Count("flag/"+dn+"/"+ed.Desc, plan.Reversible, "flags:"+dn)
 			mu.Unlock()
 			if plan.Reversible != allHave {
-				viol("failing-input", "reversible-flag-wrong", fmt.Sprintf("%s %s: plan.Reversible=%v but 'every change has reverse statements'=%v\n%s", d, ed.Desc, plan.Reversible, allHave, planTextRev(plan)), "Props.C17.reversible_iff", map[string]any{"dialect": d, "edit": ed.Desc})
+				viol("failing-input", "reversible-flag-wrong", fmt.Sprintf("%s %s: plan.Reversible=%v but 'every change has reverse statements'=%v\n%s", dn, ed.Desc, plan.Reversible, allHave, planTextRev(plan)), "Props.C17.reversible_iff", map[string]any{"dialect": dn, "edit": ed.Desc})
 			}
 		}
 	}
@@ -514,10 +519,14 @@ func c17AlterFlags(e *Env, viol func(kind, sig, what, chk string, rep any), mu *
 	if e.Thorough() {
 		n = 5000
 	}
-	for _, d := range []string{"mysql", "postgres"} {
-		pl, _, _ := plannerOf(d)
+	for _, d := range []string{"mysql", "postgres", "tidb"} {
+		pl, sd := c17Planner(d)
+		if pl == nil {
+			viol("no-failing-input-found", "tidb-planner-unreachable", "mysql.Open on a connection reporting a TiDB version did not return a planner", "correspondence C17 planners", nil)
+			continue
+		}
 		r := hx.NewRand(e.Seed, "c17-alter-"+d)
-		ity := c02Type(d, 0)
+		ity := c02Type(sd, 0)
 		mkTable := func() (*schema.Table, map[string]schema.Change) {
 			t := schema.NewTable("t").SetSchema(schema.New("public"))
 			id, a, b := schema.NewColumn("id").SetType(ity), schema.NewColumn("a").SetType(ity).SetNull(true), schema.NewColumn("b").SetType(ity).SetNull(true)
@@ -613,4 +622,25 @@ func c17AlterFlags(e *Env, viol func(kind, sig, what, chk string, rep any), mu *
 			}
 		}
 	}
+}
+
+// c17Planner returns the planner of a dialect and the dialect whose differ / types it shares. "tidb" is
+// the planner mysql.Open hands out for a connection that reports a TiDB version (it plans every atomic
+// change on its own and aggregates the flags); the connection is a mock that answers the version query.
+func c17Planner(d string) (migrate.PlanApplier, string) {
+	if d != "tidb" {
+		pl, _, _ := plannerOf(d)
+		return pl, d
+	}
+	db, mk, err := sqlmock.New(sqlmock.QueryMatcherOption(sqlmock.QueryMatcherFunc(func(string, string) error { return nil })))
+	if err != nil {
+		return nil, "mysql"
+	}
+	mk.MatchExpectationsInOrder(false)
+	mk.ExpectQuery("variables").WillReturnRows(sqlmock.NewRows([]string{"v", "collation", "charset", "lcnames"}).AddRow("5.7.25-TiDB-v6.1.0", "utf8mb4_bin", "utf8mb4", "0"))
+	drv, err := mysql.Open(db)
+	if err != nil {
+		return nil, "mysql"
+	}
+	return drv, "mysql"
 }
